@@ -236,6 +236,19 @@ def reuse_case():
         b = [i for i in introspection.getInterfacesFromXML(xml, True) if i.name == name]
         if len(b) != 1 or b[0] is known or 'New' not in b[0].methods:
             return 'replacement requested but the parsed definition is %r' % (b and sorted(b[0].methods))
+        # a name declared locally a SECOND time (a new version of the definition): the definition known from then on is the newer
+        # one, which is what an object exporting it round-trips to
+        rname = 'org.verif.Redeclared'
+        try:
+            interface.DBusInterface(rname, interface.Method('Play'))
+            newer = interface.DBusInterface(rname, interface.Method('Play'), interface.Method('Seek', arguments='x'), interface.Signal('Moved', 'x'))
+            xml = introspection.generateIntrospectionXML('/obj', {'/obj': FakeObject([newer])})
+            a = [i for i in introspection.getInterfacesFromXML(xml, False) if i.name == rname]
+            if len(a) != 1 or sorted(a[0].methods) != ['Play', 'Seek'] or sorted(a[0].signals) != ['Moved']:
+                return ('an interface name declared locally twice, the second declaration exported: parsed back (known definitions reused) as methods %r signals %r, declared Play Seek / Moved'
+                        % (a and sorted(a[0].methods), a and sorted(a[0].signals)))
+        finally:
+            interface.DBusInterface.knownInterfaces.pop(rname, None)
         # an interface known locally WITHOUT any member (a marker interface) is known all the same
         mname = 'org.verif.Marker'
         marker = interface.DBusInterface(mname)
